@@ -4,5 +4,7 @@ MCCfgSet == [win : {"fixed", "log", "counter"}, L : {1, 2}, P : {3}, T : {0, 2, 
 MCCfgSetQ == [win : {"fixed", "log", "counter"}, L : {1, 2}, P : {3}, T : {0, 2, 4}]
 MCEnforce == [C02 |-> TRUE, C15 |-> TRUE]
 Inv == FixedWindowOK /\ CounterBucketOK /\ LogSpanOK /\ IdleThenBurst /\ DecidedWithinTimeout
+\* transition tour: every transition of the (small) model, printed with the level of its source state
+TourDump == PrintT(<<"EDGE", TLCGet("level"), ToJson([f |-> view, t |-> view', cfg |-> cfg, ev |-> ev'])>>)
 GenPrint == PrintT(<<"GEN", TLCGet("level"), ToJson([cfg |-> cfg, ev |-> ev])>>)
 =============================================================================
